@@ -845,10 +845,11 @@ Proof.
   induction fuel as [|f IH]; intros n; [reflexivity|]. cbn [val].
   destruct (nth_error s n) as [nd|]; [|reflexivity].
   destruct (nkind nd); try reflexivity; try apply Hst;
-    (destruct (nvalue nd) as [[v|k|m]|p cs|idx es d]; rewrite ?IH, ?Hst; try reflexivity;
-     [destruct (is_iinteger (kind_of s idx)); [|reflexivity];
-      destruct (val s f st' idx) as [i| |]; simpl; try reflexivity;
-      destruct (select i es d) as [v|k|m]; rewrite ?IH, ?Hst; reflexivity]).
+    (destruct (nvalue nd) as [[v|k|m]|p cs|idx es d]; rewrite ?IH, ?Hst; try reflexivity).
+  all: match goal with |- context [is_iinteger ?x] => destruct (is_iinteger x); [|reflexivity] end.
+  all: match goal with |- context [bind ?x _] => destruct x as [i| |]; simpl; try reflexivity end.
+  all: match goal with |- context [select ?i ?es ?d] =>
+         destruct (select i es d) as [v|k|m]; rewrite ?IH, ?Hst; reflexivity end.
 Qed.
 
 Lemma bool_from_id_ext : forall fuel n, bool_from_id s fuel st n = bool_from_id s fuel st' n.
@@ -907,9 +908,9 @@ Proof.
   rewrite (var_q_ext rd rd' Hrd).
   destruct (nkind nd); try reflexivity;
     destruct (nvalue nd) as [[v|k|m]|p cs|idx es d];
-    rewrite ?nid_r_ext, ?(str_q_ext rd rd' Hrd), ?Hrd, ?Hvl; try reflexivity;
-    [destruct (is_iinteger (kind_of s idx)); try reflexivity;
-     destruct (vl' idx); simpl; rewrite ?iop_r_ext; reflexivity ..].
+    rewrite ?nid_r_ext, ?iop_r_ext, ?(str_q_ext rd rd' Hrd), ?Hrd, ?Hvl; try reflexivity.
+  all: match goal with |- context [is_iinteger ?x] => destruct (is_iinteger x); try reflexivity end.
+  all: match goal with |- context [bind ?x _] => destruct x; simpl; rewrite ?iop_r_ext; reflexivity end.
 Qed.
 
 Lemma writable_step_ext nd :
@@ -920,10 +921,11 @@ Proof.
   rewrite (var_q_ext wr wr' Hwr).
   destruct (nkind nd); try reflexivity;
     destruct (nvalue nd) as [[v|k|m]|p cs|idx es d];
-    rewrite ?nid_w_ext, ?(str_q_ext wr wr' Hwr), ?Hrd, ?Hvl, ?(all_amp_ext _ _ nid_w_ext);
-    try reflexivity;
-    [destruct (is_iinteger (kind_of s idx)); try reflexivity;
-     destruct (vl' idx); simpl; rewrite ?iop_w_ext; reflexivity ..].
+    rewrite ?nid_w_ext, ?iop_w_ext, ?(str_q_ext wr wr' Hwr), ?Hrd, ?Hvl, ?(all_amp_ext _ _ nid_w_ext);
+    try reflexivity.
+  all: try match goal with |- context [is_iinteger ?x] => destruct (is_iinteger x); try reflexivity end.
+  all: match goal with |- context [bind ?x _] =>
+         destruct x; simpl; rewrite ?iop_w_ext, ?(all_amp_ext _ _ nid_w_ext); reflexivity end.
 Qed.
 End StepExt.
 
@@ -943,6 +945,61 @@ Proof.
   apply writable_step_ext; auto using val_ext, bool_from_id_ext, readable_ext.
 Qed.
 
+Definition st0 : state := fun _ _ => Ok 0%Z.
+
+Theorem verdict_of_state : forall c s st st', (forall a b, st a b = st' a b) ->
+  forall F n, is_readable c s F st n = is_readable c s F st' n /\ is_writable c s F st n = is_writable c s F st' n.
+Proof. intros c s st st' H F n; split; [apply readable_ext | apply writable_ext]; exact H. Qed.
+
+Lemma upd_restore : forall st a b v x y, upd (upd st a b v) a b (st a b) x y = st x y.
+Proof.
+  intros st a b v x y. unfold upd.
+  destruct (Nat.eqb x a && Nat.eqb y b)%bool eqn:E; [|reflexivity].
+  apply andb_true_iff in E as [E1 E2]. apply Nat.eqb_eq in E1, E2. subst. reflexivity.
+Qed.
+
+(* what a step can do to a node's controls *)
+Definition Blocks (s : store) (F : nat) (st : state) (nd : node) : Prop :=
+  (exists l, p_lock nd = Some l /\ bool_from_id s F st l = Ok true) \/
+  (exists a, p_avail nd = Some a /\ bool_from_id s F st a <> Ok true) \/
+  (exists a, p_impl nd = Some a /\ bool_from_id s F st a <> Ok true).
+Definition Hides (s : store) (F : nat) (st : state) (nd : node) : Prop :=
+  (exists a, p_avail nd = Some a /\ bool_from_id s F st a <> Ok true) \/
+  (exists a, p_impl nd = Some a /\ bool_from_id s F st a <> Ok true).
+
+Theorem tracks_controls : forall c s rank F st n nd a b v,
+  Acyclic s rank -> (forall m, rank m < F) -> nth_error s n = Some nd ->
+  let st' := upd st a b v in
+  let st'' := upd st' a b (st a b) in
+  (Blocks s F st' nd -> is_writable c s F st' n <> Ok true) /\
+  (Hides s F st' nd -> is_readable c s F st' n <> Ok true) /\
+  is_writable c s F st'' n = is_writable c s F st n /\
+  is_readable c s F st'' n = is_readable c s F st n.
+Proof.
+  intros c s rank F st n nd a b v Hac HF E st' st''. repeat split.
+  - intros [(l & L & T)|[(x & A & T)|(x & A & T)]].
+    + eapply locked_not_writable; eauto.
+    + eapply unavailable; eauto.
+    + eapply unimplemented; eauto.
+  - intros [(x & A & T)|(x & A & T)].
+    + eapply unavailable; eauto.
+    + eapply unimplemented; eauto.
+  - apply writable_ext. intros x y. apply upd_restore.
+  - apply readable_ext. intros x y. apply upd_restore.
+Qed.
+
+(* non-vacuity: N0 an Integer holding 0, N1 an Integer locked by N0.  Writing 1 into N0's slot
+   locks N1, writing 0 back unlocks it. *)
+Definition lk_store : store :=
+  [ N KInteger RW RO None None None (VOne (ISlot 0)) 0 [] 1 0;
+    N KInteger RW RO None None (Some 0) (VOne (ISlot 0)) 0 [] 1 0 ].
+Example tracks_example :
+  is_writable fixed_cfg lk_store 3 st0 1 = Ok true /\
+  is_writable fixed_cfg lk_store 3 (upd st0 0 0 (Ok 1%Z)) 1 = Ok false /\
+  is_writable fixed_cfg lk_store 3 (upd (upd st0 0 0 (Ok 1%Z)) 0 0 (Ok 0%Z)) 1 = Ok true /\
+  Blocks lk_store 3 (upd st0 0 0 (Ok 1%Z)) (N KInteger RW RO None None (Some 0) (VOne (ISlot 0)) 0 [] 1 0).
+Proof. repeat split; try (vm_compute; reflexivity). left. exists 0. split; vm_compute; reflexivity. Qed.
+
 (* ================================================================== the pinned code *)
 Definition rank2 (n : nat) : nat := Nat.min n 2.
 
@@ -954,7 +1011,6 @@ Definition sk_store : store :=
 Definition en_store : store :=
   [ N KEnumeration RW RO None None None (VOne (ISlot 0)) 0 [] 1 0;
     N KInteger RW RO None None None (VPValue 0 []) 0 [] 1 0 ].
-Definition st0 : state := fun _ _ => Ok 0%Z.
 
 Lemma two_acyclic : forall a b, refs a = [] -> refs b = [0] -> Acyclic [a; b] rank2.
 Proof.
